@@ -45,7 +45,7 @@ PROPS = {
                     "full walk (with timestamps) compared with the walk before; device raises on any write; bytes compared after close"},
     "C11": {"suites": ["marks"],
             "rule": "sessions mount+history+close with the exact ordered write log; image rebuilt at every prefix; FAT12/16/32 x 1..3 FATs; empty and shuffled histories"},
-    "C12": {"suites": ["crash", "volume"],
+    "C12": {"suites": ["crash", "volume", "fsmodel"],
             "rule": "crash: histories over nested trees (makedir/makedirs/create/writebytes/appendbytes/remove/removedir/removetree/copy/move/setinfo/"
                     "create(wipe) + file-object sessions open/write/truncate/close; a structured family that removes and adds entries in a directory "
                     "spanning several sectors above a sub-directory) x FAT12 (1- and 4-sector clusters)/FAT16/FAT32 (thorough: 1-3 FATs, offset, "
@@ -182,7 +182,10 @@ MANIFEST_TEXT = {
                     "included); the tables the FAT machine can flush agree with the durable table on every chain that is not the target and the "
                     "allocator never hands out an owned cluster; hence, if each write of the log is such a table write or misses the first FAT copy "
                     "and the chain's clusters, the follower finds the chain and the bytes along it are the durable bytes at every crash point; path "
-                    "resolution over unchanged directory bytes is unchanged for any scan function. That real write logs meet the premise, that every "
+                    "resolution over unchanged directory bytes is unchanged for any scan function. Per primitive (c12_fs_outside_footprint, every reachable state of Model.Fs, every call): an "
+                    "entry that is neither the target nor its parent directory is an entry of the post-state with the same chain and shares no cluster with the "
+                    "target or the rewritten directory; suite fsmodel checks on the device log of every real call that data is written only to clusters of the "
+                    "target, its parent directory or clusters that were free. That real write logs meet the remaining premises, that every "
                     "crash image mounts, and the behaviour of the real directory reader are decided by mounting every distinct crash image with the real code.",
             "note": _NOTE + "Write-prefix crash model (no reordering of sectors inside a write). Known finding D27: a directory that loses an entry is rewritten "
                     "compacted; cut inside that rewrite, files below its sub-directories can become unreachable although their own directory is not rewritten.",
